@@ -1,1 +1,233 @@
-//! C20 placeholder (replaced below)
+//! C20 — source includes expand to the spliced text, cycles are detected. unit = one include graph (subset of the k*k
+//! possible edges); inside: directory layouts x decorations of one include line; files are written to a scratch directory
+//! and loaded with the real `mech::read_mech_source_file`.
+use super::*;
+use crate::pool::*;
+use crate::report::Report;
+use crate::subject::*;
+use mech_core::MechSourceCode;
+use serde_json::json;
+use std::collections::BTreeSet;
+use std::panic::{catch_unwind, AssertUnwindSafe};
+use std::path::PathBuf;
+
+pub const DIRS: [&str; 3] = ["", "d1", "d1/d2"];
+
+fn rel(from_dir: &str, to_dir: &str, file: &str) -> String {
+  let f: Vec<&str> = from_dir.split('/').filter(|s| !s.is_empty()).collect();
+  let t: Vec<&str> = to_dir.split('/').filter(|s| !s.is_empty()).collect();
+  let mut common = 0;
+  while common < f.len() && common < t.len() && f[common] == t[common] { common += 1; }
+  let mut parts: Vec<String> = vec![];
+  for _ in common..f.len() { parts.push("..".into()); }
+  for p in &t[common..] { parts.push(p.to_string()); }
+  parts.push(file.to_string());
+  parts.join("/")
+}
+
+#[derive(Clone, Copy, Debug, PartialEq)]
+pub enum Deco { None, LeadingBlanks, TrailingBlanksTab, InnerBlanks, NoFinalNewline, Crlf, InBacktickFence, InTildeFence, Fence4ClosedBy3, Fence4ClosedBy5, AfterUnclosedFence,
+  FenceIndent3, FenceIndent4, TextBefore, TextAfter, NotMecExpr, MissingTarget, UpperCaseExt, TwiceSameLine, IncludeLineIndent4, FenceWithInfo, TildeInsideBacktick }
+pub const DECOS: [Deco; 22] = [Deco::None, Deco::LeadingBlanks, Deco::TrailingBlanksTab, Deco::InnerBlanks, Deco::NoFinalNewline, Deco::Crlf, Deco::InBacktickFence, Deco::InTildeFence, Deco::Fence4ClosedBy3, Deco::Fence4ClosedBy5,
+  Deco::AfterUnclosedFence, Deco::FenceIndent3, Deco::FenceIndent4, Deco::TextBefore, Deco::TextAfter, Deco::NotMecExpr, Deco::MissingTarget, Deco::UpperCaseExt, Deco::TwiceSameLine, Deco::IncludeLineIndent4, Deco::FenceWithInfo, Deco::TildeInsideBacktick];
+
+/// how the decorated include line is written in the file, and whether the reference expands it
+/// returns (text of the region replacing the plain line "{p}\n", reference: list of pieces)
+pub enum Piece { Lit(String), Include }
+
+pub fn decorate(d: Deco, p: &str) -> (String, Vec<Piece>, Option<&'static str>) {
+  match d {
+    Deco::None => (format!("{{{}}}\n", p), vec![Piece::Include, Piece::Lit("\n".into())], None),
+    Deco::LeadingBlanks => (format!("  {{{}}}\n", p), vec![Piece::Include, Piece::Lit("\n".into())], None),
+    Deco::TrailingBlanksTab => (format!("{{{}}} \t\n", p), vec![Piece::Include, Piece::Lit("\n".into())], None),
+    Deco::InnerBlanks => (format!("{{ {} }}\n", p), vec![Piece::Include, Piece::Lit("\n".into())], None),
+    Deco::NoFinalNewline => (format!("{{{}}}", p), vec![Piece::Include], Some("last-line")),
+    Deco::Crlf => (format!("{{{}}}\r\n", p), vec![Piece::Include, Piece::Lit("\n".into())], None),
+    Deco::InBacktickFence => { let t = format!("```\n{{{}}}\n```\n", p); (t.clone(), vec![Piece::Lit(t)], None) }
+    Deco::InTildeFence => { let t = format!("~~~\n{{{}}}\n~~~\n", p); (t.clone(), vec![Piece::Lit(t)], None) }
+    Deco::Fence4ClosedBy3 => { let t = format!("````\n```\n{{{}}}\n````\n", p); (t.clone(), vec![Piece::Lit(t)], None) }
+    Deco::Fence4ClosedBy5 => { let a = "````\ncode\n`````\n".to_string(); (format!("{}{{{}}}\n", a, p), vec![Piece::Lit(a), Piece::Include, Piece::Lit("\n".into())], None) }
+    Deco::AfterUnclosedFence => { let t = format!("```\n{{{}}}\n", p); (t.clone(), vec![Piece::Lit(t)], Some("rest-of-file-in-fence")) }
+    Deco::FenceIndent3 => { let t = format!("   ```\n{{{}}}\n   ```\n", p); (t.clone(), vec![Piece::Lit(t)], None) }
+    Deco::FenceIndent4 => { let a = "    ```\n".to_string(); let b = "    ```\n".to_string(); (format!("{}{{{}}}\n{}", a, p, b), vec![Piece::Lit(a), Piece::Include, Piece::Lit("\n".into()), Piece::Lit(b)], None) }
+    Deco::TextBefore => { let t = format!("see {{{}}}\n", p); (t.clone(), vec![Piece::Lit(t)], None) }
+    Deco::TextAfter => { let t = format!("{{{}}} here\n", p); (t.clone(), vec![Piece::Lit(t)], None) }
+    Deco::NotMecExpr => { let t = "{6 * 7}\n".to_string(); (t.clone(), vec![Piece::Lit(t)], None) }
+    Deco::MissingTarget => (format!("{{nofile.mec}}\n{{{}}}\n", p), vec![], Some("missing")),
+    Deco::UpperCaseExt => { let t = format!("{{{}}}\n", p.replace(".mec", ".MEC")); (t.clone(), vec![Piece::Lit(t)], None) }
+    Deco::TwiceSameLine => { let t = format!("{{{}}} {{{}}}\n", p, p); (t.clone(), vec![], Some("unjudged")) }
+    Deco::IncludeLineIndent4 => (format!("    {{{}}}\n", p), vec![Piece::Include, Piece::Lit("\n".into())], None),
+    Deco::FenceWithInfo => { let t = format!("```mech:disabled\n{{{}}}\n```\n", p); (t.clone(), vec![Piece::Lit(t)], None) }
+    Deco::TildeInsideBacktick => { let t = format!("```\n~~~\n{{{}}}\n```\n", p); (t.clone(), vec![Piece::Lit(t)], None) }
+  }
+}
+
+pub struct C20 { tier: Tier, scratch: PathBuf }
+impl C20 {
+  pub fn new(tier: Tier) -> C20 {
+    // tiny transient files: use the RAM-backed /dev/shm when it exists (orders of magnitude less system time), else target/
+    let scratch = if std::path::Path::new("/dev/shm").is_dir() { PathBuf::from(format!("/dev/shm/mc-c20-scratch/{}", std::process::id())) } else { PathBuf::from(format!("{}/target/c20-scratch/{}", crate::report::verif_dir(), std::process::id())) };
+    C20 { tier, scratch }
+  }
+  fn k(&self) -> usize { self.tier.pick(3, 4) }
+}
+
+pub enum Want { Text(String), Cycle, Missing, Either, Unjudged }
+
+/// reference expander over the include graph: depth-first substitution with the stack of files being expanded
+fn expand(i: usize, k: usize, edges: u32, deco_on_root: &Option<(usize, Vec<Piece>, Option<&'static str>)>, stack: &mut Vec<usize>, outcome: &mut (bool, bool), style: usize) -> String {
+  if stack.contains(&i) { outcome.0 = true; return String::new(); }
+  stack.push(i);
+  if style == 2 && i != 0 && (0..k).all(|j| edges >> (i * k + j) & 1 == 0) { stack.pop(); return String::new(); }   // an empty leaf file
+  let mut s = format!("T{}-begin\n", i);
+  let mut first = true;
+  for j in 0..k {
+    if edges >> (i * k + j) & 1 == 0 { continue; }
+    let decorated = i == 0 && first && deco_on_root.is_some();
+    first = false;
+    if decorated {
+      let (_, pieces, flag) = deco_on_root.as_ref().unwrap();
+      if *flag == Some("missing") { outcome.1 = true; }
+      for p in pieces { match p { Piece::Lit(t) => s.push_str(t), Piece::Include => { let e = expand(j, k, edges, deco_on_root, stack, outcome, style); s.push_str(&e); } } }
+      if *flag == Some("rest-of-file-in-fence") {
+        // everything after the unclosed fence is inside it: the remaining include lines and the end marker are copied verbatim
+        for j2 in (j + 1)..k { if edges >> (i * k + j2) & 1 == 1 { s.push_str(&format!("{{@{}}}\n", j2)); } }
+        s.push_str(&format!("T{}-end\n", i));
+        stack.pop();
+        return s;
+      }
+      if *flag == Some("last-line") { stack.pop(); return s; }
+    } else {
+      let e = expand(j, k, edges, deco_on_root, stack, outcome, style);
+      s.push_str(&e);
+      s.push('\n');
+    }
+  }
+  s.push_str(&format!("T{}-end\n", i));
+  if style == 1 && i != 0 { s.push_str("```\nx\n```\n"); }   // the file's last line closes a code fence
+  stack.pop();
+  s
+}
+
+impl UnitRunner for C20 {
+  fn unit(&mut self, _payload: &str, unit: u64, out: &mut WorkerOut) {
+    let k = self.k();
+    let edges = unit as u32;
+    let layouts: Vec<Vec<usize>> = {
+      // directory of each file: f0 in "." always; the others range over the three directories (quick: 5 layouts)
+      let mut v = vec![];
+      let n = 3usize.pow(k as u32 - 1);
+      for m in 0..n { let mut l = vec![0]; let mut x = m; for _ in 1..k { l.push(x % 3); x /= 3; } v.push(l); }
+      if self.tier == Tier::Quick { v = vec![v[0].clone(), v[1].clone(), v[2].clone(), v[n / 2].clone(), v[n - 1].clone()]; }
+      if self.tier == Tier::Thorough && k == 4 { v = v.into_iter().step_by(3).collect(); }
+      v
+    };
+    let root_has_include = (0..k).any(|j| edges >> j & 1 == 1);
+    for (li, layout) in layouts.iter().enumerate() {
+      let decos: Vec<Deco> = if root_has_include && (li == 0 || self.tier == Tier::Thorough && li % 4 == 1) { DECOS.to_vec() } else { vec![Deco::None] };
+      for d in decos {
+       for style in 0..3usize {
+        if style > 0 && !(d == Deco::None && li == 0) { continue; }
+        out.evaluations += 1;
+        // ---- write the files
+        let dir = self.scratch.join(format!("g{}l{}", edges, li));
+        let _ = std::fs::remove_dir_all(&dir);
+        let mut ok = true;
+        let mut texts: Vec<String> = vec![];
+        let mut deco_ref: Option<(usize, Vec<Piece>, Option<&'static str>)> = None;
+        for i in 0..k {
+          let mut s = format!("T{}-begin\n", i);
+          let mut first = true;
+          let mut ended = false;
+          for j in 0..k {
+            if edges >> (i * k + j) & 1 == 0 { continue; }
+            let p = rel(DIRS[layout[i]], DIRS[layout[j]], &format!("f{}.mec", j));
+            if i == 0 && first && d != Deco::None {
+              let (t, pieces, flag) = decorate(d, &p);
+              s.push_str(&t);
+              if flag == Some("last-line") { ended = true; }
+              deco_ref = Some((j, pieces, flag));
+              first = false;
+              if ended { break; }
+              continue;
+            }
+            first = false;
+            s.push_str(&format!("{{{}}}\n", p));
+          }
+          if !ended { s.push_str(&format!("T{}-end\n", i)); }
+          if style == 1 && i != 0 { s.push_str("```\nx\n```\n"); }
+          if style == 2 && i != 0 && (0..k).all(|j| edges >> (i * k + j) & 1 == 0) { s = String::new(); }
+          texts.push(s.clone());
+          let fdir = dir.join(DIRS[layout[i]]);
+          if std::fs::create_dir_all(&fdir).is_err() || std::fs::write(fdir.join(format!("f{}.mec", i)), &s).is_err() { ok = false; }
+        }
+        if !ok { out.fail("C20|scratch-io|setup".into(), format!("{}", dir.display()), "cannot write scratch files".into()); continue; }
+        if d == Deco::NoFinalNewline && deco_ref.is_none() { let _ = std::fs::remove_dir_all(&dir); continue; }
+        // ---- reference
+        let mut stack = vec![]; let mut oc = (false, false);
+        let mut want_text = expand(0, k, edges, &(if d == Deco::None { None } else { deco_ref.take() }), &mut stack, &mut oc, style);
+        // the verbatim copies inside an unclosed fence were recorded as {@j}: put the real paths back
+        for j in 0..k { want_text = want_text.replace(&format!("{{@{}}}", j), &format!("{{{}}}", rel(DIRS[layout[0]], DIRS[layout[j]], &format!("f{}.mec", j)))); }
+        let want = if d == Deco::TwiceSameLine { Want::Unjudged } else { match oc { (true, true) => Want::Either, (true, false) => Want::Cycle, (false, true) => Want::Missing, _ => Want::Text(want_text) } };
+        // ---- subject
+        let root = dir.join("f0.mec");
+        let r = catch_unwind(AssertUnwindSafe(|| mech::read_mech_source_file(&root)));
+        let shape = graph_shape(k, edges);
+        let locus = format!("{}:{:?}{}", shape, d, ["", ":files-end-with-fence", ":empty-leaf-files"][style]);
+        let case = format!("files {:?} (f0 in ./, layout {:?})", texts, layout.iter().map(|l| DIRS[*l]).collect::<Vec<_>>());
+        match r {
+          Err(p) => out.fail(format!("C20|panic|{}", locus), case, panic_msg(p)),
+          Ok(res) => {
+            let got: Result<String, String> = match res { Ok(MechSourceCode::String(s)) => Ok(s), Ok(_) => Err("not a string source".into()), Err(e) => Err(format!("{}", e.kind_message())) };
+            match (&want, &got) {
+              (Want::Unjudged, _) => {}
+              (Want::Text(w), Ok(g)) => { out.nontrivial += 1; if w != g { let cls = if matches!(d, Deco::InBacktickFence | Deco::InTildeFence | Deco::Fence4ClosedBy3 | Deco::AfterUnclosedFence | Deco::FenceIndent3 | Deco::FenceWithInfo | Deco::TildeInsideBacktick) { "fence-line-expanded-or-altered" } else if g.len() < w.len() { "include-line-ignored-or-text-lost" } else { "wrong-text" }; out.fail(format!("C20|{}|{}", cls, locus), case, format!("expected {:?}, got {:?}", w, g)); } }
+              (Want::Text(w), Err(e)) => { out.nontrivial += 1; let cls = if e.contains("Circular") { "false-cycle" } else { "valid-tree-rejected" }; out.fail(format!("C20|{}|{}", cls, locus), case, format!("acyclic, complete include tree (expected {:?}) failed with: {}", w, e)); }
+              (Want::Cycle, Ok(g)) => { out.nontrivial += 1; out.fail(format!("C20|cycle-missed|{}", locus), case, format!("a cycle is reachable from f0, loading returned {:?}", g)); }
+              (Want::Cycle, Err(e)) => { out.nontrivial += 1; if !e.contains("Circular include") { out.fail(format!("C20|cycle-missed|{}", locus), case, format!("a cycle is reachable, the error does not say so: {}", e)); } }
+              (Want::Missing, Ok(g)) => { out.nontrivial += 1; out.fail(format!("C20|missing-not-reported|{}", locus), case, format!("nofile.mec does not exist, loading returned {:?}", g)); }
+              (Want::Missing, Err(e)) => { out.nontrivial += 1; if !e.contains("nofile.mec") { out.fail(format!("C20|missing-not-reported|{}", locus), case, format!("the error does not name the missing file: {}", e)); } }
+              (Want::Either, Ok(g)) => { out.nontrivial += 1; out.fail(format!("C20|cycle-missed|{}", locus), case, format!("cycle and missing file reachable, loading returned {:?}", g)); }
+              (Want::Either, Err(_)) => { out.nontrivial += 1; }
+            }
+            if unit % 61 == 0 && li == 0 && d == Deco::None { out.sample(json!({"files": texts, "result": got.map_err(|e| e)})); }
+          }
+        }
+        let _ = std::fs::remove_dir_all(&dir);
+       }
+      }
+    }
+  }
+}
+
+pub fn graph_shape(k: usize, edges: u32) -> String {
+  let has = |i: usize, j: usize| edges >> (i * k + j) & 1 == 1;
+  let n = (0..k * k).filter(|b| edges >> b & 1 == 1).count();
+  let selfloop = (0..k).any(|i| has(i, i));
+  // reachable set and cycle detection from f0
+  let mut reach = BTreeSet::new(); let mut st = vec![0usize];
+  while let Some(x) = st.pop() { if reach.insert(x) { for j in 0..k { if has(x, j) { st.push(j); } } } }
+  fn cyc(k: usize, edges: u32, i: usize, stack: &mut Vec<usize>) -> bool { if stack.contains(&i) { return true; } stack.push(i); for j in 0..k { if edges >> (i * k + j) & 1 == 1 && cyc(k, edges, j, stack) { return true; } } stack.pop(); false }
+  let c = cyc(k, edges, 0, &mut vec![]);
+  let indeg: Vec<usize> = (0..k).map(|j| (0..k).filter(|i| reach.contains(i) && has(*i, j)).count()).collect();
+  let diamond = !c && indeg.iter().any(|d| *d >= 2);
+  format!("{}{}{}edges{}", if c { if selfloop { "self-or-cycle/" } else { "cycle/" } } else { "acyclic/" }, if diamond { "diamond/" } else { "" }, if reach.len() < k { "unreachable-files/" } else { "" }, n.min(9))
+}
+
+impl Check for C20 {
+  fn id(&self) -> &'static str { "C20" }
+  fn level(&self) -> &'static str { "exploration" }
+  fn unit_budget(&self, _t: Tier) -> Duration { Duration::from_secs(60) }
+  fn drive(&mut self, tier: Tier, cfg: &PoolCfg, rep: &mut Report) {
+    let k = self.k();
+    let n = 1u64 << (k * k);
+    rep.rule = format!("every subset of the {}x{} possible include edges among {} files (self-loops, cycles, diamonds and repeated includes included) = {} graphs x directory layouts (files placed in ., d1, d1/d2 with relative paths incl. ../) x file-body styles (plain, every included file ending with a code fence, empty leaf files) x 22 decorations of the root's first include line (blanks, tab, inner blanks, no final newline, CRLF, inside backtick / tilde / 4-backtick fences closed by 3 or 5, after an unclosed fence, fences indented by 3 or 4, text before / after the braces, a non-.mec brace expression, a missing target, upper-case extension, fence with an info string, a tilde line inside a backtick fence); \
+      the files are written to a scratch directory and loaded with mech::read_mech_source_file; the reference is a depth-first textual substitution with the stack of files being expanded and its own CommonMark fence tracker; evaluations = loads; non-trivial = loads with a fixed verdict", k, k, k, n);
+    rep.assumptions = vec!["which of two reachable failures (cycle, missing file) is reported is not judged; two brace groups on one line are not judged; symlinks and non-UTF-8 files are out of scope".into(), "a fence is a CommonMark fenced code block: 3+ backticks or tildes indented at most 3 blanks, closed by at least as many of the same character".into()];
+    rep.cov("bounds", json!({"files": k, "graphs": n, "decorations": DECOS.len()}));
+    drive_ranges(cfg, rep, range_jobs("", n, tier.pick(4, 64)));
+    let _ = std::fs::remove_dir_all(format!("{}/target/c20-scratch", crate::report::verif_dir()));
+    let _ = std::fs::remove_dir_all("/dev/shm/mc-c20-scratch");
+    if rep.out.nontrivial < 1000 { rep.vacuity.push("too few judged loads".into()); }
+  }
+}
